@@ -118,5 +118,6 @@ MomentumRel(c, e, sgn) ==
   /\ (c.saturated /\ sgn \in {1, -1}) =>
        \A t \in c.id0..(c.id0 + c.n - 1) :
          /\ Len(Sel(Of(N, t), LAMBDA x : x.mkt)) = 1
-         /\ c.order_ratio_one => Len(Sel(Of(N, t), LAMBDA x : ~x.mkt)) = 1
+         \* the limit-order probability is the order ratio times the market-order probability: certain when that product is >= 1
+         /\ c.limit_certain => Len(Sel(Of(N, t), LAMBDA x : ~x.mkt)) = 1
 =============================================================================
